@@ -25,11 +25,17 @@ func ZZRandomLevelZero(h *Index) int { return 0 }
 // ZZLastDistance is the symbolic distance the search stub reported last.
 var ZZLastDistance float64
 
+// ZZForcedDistance >= 0 makes the stub report that distance; negative = arbitrary (symbolic).
+var ZZForcedDistance float64 = -1
+
 // ZZSearchOneSymbolic replaces Index.SearchWithScores: the nearest neighbour is node 1 at an arbitrary
 // non-negative distance (the proxy/engine code that converts and compares it is real).
 func ZZSearchOneSymbolic(h *Index, query []float32, k int, allowList *roaring.Bitmap, efSearch int) []types.SearchResult {
-	d := rt.Float64("distance")
-	rt.Assume(rt.And(d >= 0, d <= 1e30))
+	d := ZZForcedDistance
+	if ZZForcedDistance < 0 {
+		d = rt.Float64("distance")
+		rt.Assume(rt.And(d >= 0, d <= 1e30))
+	}
 	ZZLastDistance = d
 	return []types.SearchResult{{DocID: 1, Score: d}}
 }
